@@ -104,7 +104,7 @@ pub fn expect_var(slots: &[StorageSlot], v: &Var) -> Result<(), (String, String)
             Some(s) if is_20_bytes(&s.typ) => Ok(()),
             _ => Err(("address-masked word: no 20-byte entry at offset 0".into(), describe(&here))),
         },
-        Kind::Mapping { keys, value_addr } => {
+        Kind::Mapping { keys, value_addr, const_key } => {
             let Some(s) = here.iter().find(|s| s.offset == 0) else {
                 return Err(("mapping: no entry at offset 0".into(), describe(&here)));
             };
@@ -183,7 +183,8 @@ pub fn label_truth(t: &Truth, acc: &mut Acc) -> bool {
         match &v.kind {
             Kind::Plain => acc.label("kind:plain"),
             Kind::Addr => acc.label("kind:addr"),
-            Kind::Mapping { keys, .. } => {
+            Kind::Mapping { keys, const_key, .. } => {
+                acc.label_if(const_key.is_some(), "kind:mapping-constant-key");
                 acc.label(match keys.len() {
                     1 => "kind:mapping-depth1",
                     2 => "kind:mapping-depth2",
